@@ -140,3 +140,10 @@ void h_unlock(void) {
   VASSERT(POST_unlock(r), "H: unlock performs exactly one release");
   VCANARY("unlock can return");
 }
+/* init: from ANY memory content (a lock placed in recycled memory) the initialiser establishes the state every proof above starts from */
+void h_init(void) {
+  static fiber_spinlock_t X; memset(&X, (int)verif_u64(), sizeof(X));
+  int r = fiber_spinlock_init(&X);
+  VASSERT(r == FIBER_SUCCESS && X.state.blob == 0, "H: C18 init: ticket == users (free, nobody queued): the whole state word is 0, whatever the memory held");
+  VCANARY("init can return");
+}
